@@ -480,7 +480,24 @@ class StmtMixin:
 
     # ---- with ----------------------------------------------------------------------------------
     def s_With(self, stmt, st):
-        raise Unsupported("with statement at line %d" % stmt.lineno)
+        """with E as x: body  ==  x = E; body.  __enter__ returns the object, __exit__ neither raises nor suppresses
+        (true of open() files and ExitStack; recorded as an assumption)."""
+        self.assumptions.add("with-statement context managers (open(), ExitStack) return themselves on entry and neither raise nor suppress on exit")
+        sink = []
+        cur = [st]
+        for item in stmt.items:
+            nxt = []
+            for s in cur:
+                for s2, v in self.ev(item.context_expr, s, sink):
+                    if item.optional_vars is not None:
+                        nxt += self.assign_target(item.optional_vars, v, s2, sink)
+                    else:
+                        nxt.append(s2)
+            cur = nxt
+        outs = []
+        for s in cur:
+            outs += self.exec_block(stmt.body, s)
+        return outs + sink
 
 
 def _as_load(node):
